@@ -171,12 +171,15 @@ def provision(srv, sd, ndsn, demands, allgrants):
 
 
 def send(srv, dsn, ep, sql, token):
-    if ep == "sql":
-        r = srv.req("POST", "/dsns/%s/tables/@sql" % dsn, json.dumps(sql), token=token,
-                    headers={"Content-Type": "application/json"}, timeout=60)
-    else:
-        op = "sql" if ep == "tx" else "readrows"
-        r = srv.req("POST", "/dsns/%s/tables/@transaction" % dsn, [{"operation": op, "sql": sql}], token=token, timeout=60)
+    try:        # never retried: a statement may have run although its answer was lost
+        if ep == "sql":
+            r = srv.req("POST", "/dsns/%s/tables/@sql" % dsn, json.dumps(sql), token=token,
+                        headers={"Content-Type": "application/json"}, timeout=300)
+        else:
+            op = "sql" if ep == "tx" else "readrows"
+            r = srv.req("POST", "/dsns/%s/tables/@transaction" % dsn, [{"operation": op, "sql": sql}], token=token, timeout=300)
+    except OSError as ex:
+        raise vf.NoVerdict("request to the server failed (%s): %s via %s" % (ex, sql, ep))
     j = r.json() or {}
     sess = (j.get("server") or {}).get("session")
     return r.status, sess, (j.get("msg") or "")[:200]
@@ -421,8 +424,10 @@ def run():
         for w in [NOW] + demands:
             users[uname(w)] = ("pw", ["ego.logon", "ego.sql"])
         t0 = time.time()
-        with egosrv.Server(sd, ego, users=users, settings={"ego.server.userdata": "sqlite3://%s/sys.db" % sd},
-                           env={"EGO_DEFAULT_LOGGING": "SQL,TABLES"}) as srv:
+        srv = egosrv.Server(sd, ego, users=users, settings={"ego.server.userdata": "sqlite3://%s/sys.db" % sd},
+                            env={"EGO_DEFAULT_LOGGING": "SQL,TABLES"})
+        try:
+            srv.start(wait=180)         # generous: the machine may be heavily loaded
             dsns, tokens = provision(srv, sd, ndsn, demands, allgrants)
             pristine = db_project(dsns[0][1])
             vf.log("C15 provisioned %.0fs; %d cases" % (time.time() - chk.t0, len(cases)))
@@ -431,6 +436,8 @@ def run():
             log = read_server_log(srv, last)
             if not srv.alive():
                 raise vf.NoVerdict("the server died during the run\n" + srv.log_text()[-2000:])
+        finally:
+            srv.stop()
         if not log[last]["done"]:
             raise vf.NoVerdict("server log incomplete (request of session %s not logged)" % last)
         flat = finalize(groups, log)
@@ -476,7 +483,13 @@ def run():
         chk.cov["evaluations"] += len(decided)
         chk.cov["distinct_nontrivial"] += len({(r["ep"], json.dumps(r["shape"], sort_keys=True), r["w"]["t"], r["w"]["p"]) for r in decided})
         chk.cov["undecided_records"] = rep["undecided"]
-        for r in decided[:3]:
+        seen_kinds = set()
+        for r in decided:        # samples: one control and one denied request per endpoint, different statement kinds
+            tag = (r["ep"], bool(r["w"]["p"]))
+            if tag in seen_kinds or (r["shape"]["kind"] in {k for _e, k in seen_kinds if isinstance(k, str)}):
+                continue
+            seen_kinds.add(tag)
+            seen_kinds.add(("kind", r["shape"]["kind"]))
             chk.sample({"kind": "request", **{k: r[k] for k in ("ep", "sql", "w", "status", "executed", "changed", "checks", "xopen", "xwrite")}})
         # 8. binding self-test: a record that ran although a demanded permission was withheld, and a control that ran
         #    without one demanded lookup, must both be rejected
